@@ -3,9 +3,28 @@
 From Coq Require Import List ZArith NArith Bool String Lia.
 From Flocq Require Import IEEE754.BinarySingleNaN.
 From Verif Require Import common.Sexp common.Int64 c03.JV c03.Core c03.Ops c03.Natives c03.Spec c03.Wf c03.Denote
-  c03.NoPanic2 c03.NativesDoc3.
+  c03.NoPanic2 c03.CompareDoc c03.NativesDoc3.
 Import ListNotations.
 Open Scope Z_scope.
+
+Lemma go_index_nth_d' {A} (l : list A) k d : 0 <= k < llen l -> go_index l k = Val (nth (Z.to_nat k) l d).
+Proof.
+  intros H. unfold go_index, llen in *.
+  destruct (k <? 0) eqn:E1; [apply Z.ltb_lt in E1; lia|].
+  destruct (Z.of_nat (List.length l) <=? k) eqn:E2; [apply Z.leb_le in E2; lia|]. simpl.
+  rewrite (nth_error_nth' l d) by lia. reflexivity.
+Qed.
+Lemma go_index_nth' {A} (l : list A) k x : nth_error l (Z.to_nat k) = Some x -> 0 <= k < llen l -> go_index l k = Val x.
+Proof.
+  intros HN HK. unfold go_index, llen in *.
+  destruct (k <? 0) eqn:E1; [apply Z.ltb_lt in E1; lia|].
+  destruct (Z.of_nat (List.length l) <=? k) eqn:E2; [apply Z.leb_le in E2; lia|]. simpl. rewrite HN. reflexivity.
+Qed.
+Lemma nth_error_Some_lt {A} (l : list A) i x : nth_error l i = Some x -> (i < List.length l)%nat.
+Proof. intros H. apply nth_error_Some. congruence. Qed.
+
+Lemma omap_cons {A B} (f : A -> outcome B) y vs : omap f (y :: vs) = (do c <- f y; do ys <- omap f vs; Val (c :: ys)).
+Proof. reflexivity. Qed.
 
 Section TextDoc.
   Variable pf : bytes -> option float.
@@ -81,6 +100,159 @@ Section TextDoc.
       destruct (join_items ff false (JStr sep) vs); try discriminate. simpl in EI. inversion EI. reflexivity. }
     subst i0. cbn [add_seq add_step bind].
     cbn [map all_some_b strnull] in AS. destruct (all_some_b (map strnull items)) as [ts|] eqn:E; [|discriminate].
-    rewrite (add_seq_strings items [] ts E). rewrite <- inter_join. simpl in AS. inversion AS as [HH]. rewrite <- HH. reflexivity.
+    rewrite (add_seq_strings items [] ts E). rewrite <- inter_join. simpl in AS. injection AS as HH. unfold bytes in *. rewrite <- HH. reflexivity.
+  Qed.
+
+  (* ---- @csv / @tsv / @sh: the row rules ---- *)
+  (* a cell: strings are escaped, null is empty (or the text null for @sh), booleans and numbers are their
+     JSON text (a NaN, which prints as null, is empty too), arrays and objects are not allowed *)
+  Definition row_cell (sh : bool) (escape : bytes -> bytes) (v : jv) : option bytes :=
+    match v with
+    | JStr s => Some (escape s)
+    | JArr _ | JObj _ | JHole => None
+    | _ => match cell_text v with
+           | Some t => Some (if negb (bytes_eqb (match v with JNull => codes "null" | _ => t end) (codes "null")) || sh
+                             then (match v with JNull => codes "null" | _ => t end) else [])
+           | None => None
+           end
+    end.
+  Theorem format_join_doc sh sep escape vs :
+    format_join ff sh sep escape (JArr vs) =
+    match all_some_b (map (row_cell sh escape) vs) with
+    | Some cells => Val (JStr (join_bytes sep cells))
+    | None => format_join ff sh sep escape (JArr vs)       (* some element is an array / object: an error *)
+    end.
+  Proof.
+    destruct (all_some_b (map (row_cell sh escape) vs)) as [cells|] eqn:E; [|reflexivity].
+    unfold format_join.
+    assert (G : omap (fun x => match x with
+                               | JArr _ | JObj _ => Err EFormatRow
+                               | JStr s => Val (escape s)
+                               | _ => do s <- encode ff x; Val (if negb (bytes_eqb s (codes "null")) || sh then s else [])
+                               end) vs = Val cells).
+    { revert cells E. induction vs as [|x vs IH]; intros cells E; simpl in *; [inversion E; reflexivity|].
+      destruct (row_cell sh escape x) as [c|] eqn:RC; [|discriminate].
+      destruct (all_some_b (map (row_cell sh escape) vs)) as [cs|] eqn:E2; [|discriminate]. inversion E; subst.
+      rewrite (IH cs eq_refl).
+      destruct x as [|[]|n| | | |]; simpl in RC; inversion RC; subst; reflexivity. }
+    rewrite G. reflexivity.
+  Qed.
+  Theorem format_join_errors sh sep escape v :
+    (match v with JArr _ => False | _ => True end -> format_join ff sh sep escape v = Err EFunc0Type)
+    /\ (forall vs x, v = JArr vs -> In x vs -> (match x with JArr _ | JObj _ => True | _ => False end) ->
+         hole_free v = true -> format_join ff sh sep escape v = Err EFormatRow).
+  Proof.
+    split.
+    - destruct v; intros H; try reflexivity. destruct H.
+    - intros vs x -> I BX HF. unfold format_join. simpl in HF.
+      assert (G : omap (fun x => match x with
+                               | JArr _ | JObj _ => Err EFormatRow
+                               | JStr s => Val (escape s)
+                               | _ => do s <- encode ff x; Val (if negb (bytes_eqb s (codes "null")) || sh then s else [])
+                               end) vs = Err EFormatRow).
+      { induction vs as [|y vs IH]; [destruct I|]. simpl in HF. apply andb_true_iff in HF as [H1 H2].
+        destruct I as [->|I].
+        - destruct x; try destruct BX; reflexivity.
+        - specialize (IH I H2). rewrite omap_cons, IH.
+          destruct y as [|[]|n| | | |]; try (discriminate H1); simpl; try reflexivity; destruct (encode_num ff n); reflexivity. }
+      rewrite G. reflexivity.
+  Qed.
+
+  (* tostring / @text / @json / format: the dispatch *)
+  Theorem tostring_dispatch v x :
+    (forall s, f_tostring ff (JStr s) = Val (JStr s))
+    /\ (match v with JStr _ => False | _ => True end -> f_tostring ff v = f_tojson ff v)
+    /\ f_format ff v (JStr (codes "text")) = f_tostring ff v
+    /\ f_format ff v (JStr (codes "json")) = f_tojson ff v
+    /\ f_format ff v (JStr (codes "csv")) = f_tocsv ff v
+    /\ f_format ff v (JStr (codes "tsv")) = f_totsv ff v
+    /\ f_format ff v (JStr (codes "html")) = f_tohtml ff v
+    /\ f_format ff v (JStr (codes "uri")) = f_touri ff v
+    /\ f_format ff v (JStr (codes "sh")) = f_tosh ff v
+    /\ f_format ff v (JStr (codes "base64")) = f_tobase64 ff v
+    /\ f_format ff v (JStr (codes "base64d")) = f_tobase64d ff v
+    /\ (match x with JStr _ => False | _ => True end -> f_format ff v x = Err EFunc0Type).
+  Proof.
+    repeat split; try reflexivity.
+    - destruct v; intros H; try reflexivity. destruct H.
+    - destruct x; intros H; try reflexivity. destruct H.
+  Qed.
+
+  (* ---- setpath then getpath: reading a path just written returns what was written ---- *)
+  Definition simple_key (x : jv) : Prop :=
+    match x with
+    | JStr _ => True
+    | JNum (NInt i) => 0 <= i
+    | _ => False
+    end.
+  Lemma obj_get_set_same {A} (m : list (bytes * A)) k v : obj_get (obj_set m k v) k = Some v.
+  Proof.
+    induction m as [|[k' v'] m IH]; simpl.
+    - rewrite bytes_eqb_refl. reflexivity.
+    - destruct (bytes_cmp k k') eqn:E; simpl.
+      + rewrite bytes_eqb_refl. reflexivity.
+      + rewrite bytes_eqb_refl. reflexivity.
+      + destruct (bytes_eqb k k') eqn:E2; [apply bytes_cmp_eq in E2; congruence|]. exact IH.
+  Qed.
+  Lemma nth_set_nth l : forall i u, nth_error (set_nth l i u) i = Some u.
+  Proof. induction l as [|x l IH]; intros [|i] u; simpl; auto. clear. induction i; simpl; auto. Qed.
+
+  Lemma hole_free_nth l i : forallb hole_free l = true -> hole_free (nth i l JNull) = true.
+  Proof. revert i. induction l; intros [|i] H; simpl in *; auto; apply andb_true_iff in H as [? ?]; auto. Qed.
+  Lemma hole_free_get m k : forallb (fun kv : bytes * jv => hole_free (snd kv)) m = true ->
+    hole_free (match obj_get m k with Some w => w | None => JNull end) = true.
+  Proof. induction m as [|[k' v'] m IH]; simpl; intros H; auto. apply andb_true_iff in H as [? ?]. destruct (bytes_eqb k k'); auto. Qed.
+
+  Theorem setpath_getpath path : forall v n u, Forall simple_key path -> is_hole n = false -> hole_free v = true ->
+    update pf path v n = Val u -> getpath_loop pf path u = Val n.
+  Proof.
+    induction path as [|p rest IH]; intros v n u SK NH HF H; [simpl in *; congruence|].
+    inversion SK as [|? ? SP SR]; subst. cbn [update] in H. cbv zeta in H.
+    destruct p as [| |[i| | |]|k| | |]; try (exfalso; exact SP). all: simpl in SP.
+    - (* index i >= 0 *)
+      cbn [norm_num pnum_to_int] in H.
+      assert (G : forall l, (let j := clamp_index i (-1) (llen l) in
+               if j <? 0 then (if is_hole n then Val v else Err EArrayIndexNegative)
+               else if j <? llen l then do x <- go_index l j; do u0 <- update pf rest x n; Val (JArr (set_nth l (Z.to_nat j) u0))
+               else if is_hole n then Val v else if 536870912 <=? i then Err EArrayIndexTooLarge
+               else do u0 <- update pf rest JNull n; Val (JArr (set_nth l (Z.to_nat i) u0))) = Val u ->
+               exists l' u', u = JArr l' /\ update pf rest (nth (Z.to_nat i) l JNull) n = Val u' /\ nth_error l' (Z.to_nat i) = Some u').
+      { intros l. cbv zeta. unfold clamp_index. replace (i <? 0) with false by (symmetry; apply Z.ltb_ge; lia).
+        replace (i <? -1) with false by (symmetry; apply Z.ltb_ge; lia).
+        destruct (i <? llen l) eqn:E.
+        - replace (i <? 0) with false by (symmetry; apply Z.ltb_ge; lia). rewrite E.
+          apply Z.ltb_lt in E. rewrite (go_index_nth_d' l i JNull) by lia. cbn [bind].
+          destruct (update pf rest (nth (Z.to_nat i) l JNull) n) as [u0| |] eqn:EU; try discriminate. cbn [bind].
+          intros HH; inversion HH; subst. eexists; eexists; repeat split; eauto. apply nth_set_nth.
+        - apply Z.ltb_ge in E. pose proof (llen_nonneg l).
+          replace (llen l <? 0) with false by (symmetry; apply Z.ltb_ge; lia). rewrite Z.ltb_irrefl. rewrite NH.
+          destruct (536870912 <=? i); [discriminate|].
+          rewrite nth_overflow by (unfold llen in *; lia).
+          destruct (update pf rest JNull n) as [u0| |] eqn:EU; try discriminate. cbn [bind].
+          intros HH; inversion HH; subst. eexists; eexists; repeat split; eauto. apply nth_set_nth. }
+      assert (F : forall l' u', nth_error l' (Z.to_nat i) = Some u' -> f_index2 pf (JArr l') (JNum (NInt i)) = Val u').
+      { intros l' u' HN. unfold f_index2. cbn [norm_num pnum_to_int]. unfold index_arr, clamp_index.
+        assert (LT : i < llen l') by (unfold llen; apply nth_error_Some_lt in HN; lia).
+        assert (E0 : (i <? 0) = false) by (apply Z.ltb_ge; lia).
+        assert (E1 : (i <? -1) = false) by (apply Z.ltb_ge; lia).
+        assert (E2 : (i <? llen l') = true) by (apply Z.ltb_lt; lia).
+        assert (E3 : (0 <=? i) = true) by (apply Z.leb_le; lia).
+        rewrite ?E0, ?E1, ?E2, ?E3. cbn [andb]. rewrite ?E0, ?E1, ?E2, ?E3. cbn [andb].
+        apply go_index_nth'; auto. }
+      destruct v as [| |vn| |l| |]; try discriminate.
+      + destruct (G [] H) as (l' & u' & -> & EU & HN). cbn [getpath_loop]. rewrite (F l' u' HN). apply (IH (nth (Z.to_nat i) [] JNull) n u'); auto. destruct (Z.to_nat i); reflexivity.
+      + destruct (G l H) as (l' & u' & -> & EU & HN). cbn [getpath_loop]. rewrite (F l' u' HN). apply (IH (nth (Z.to_nat i) l JNull) n u'); auto. apply hole_free_nth; auto.
+    - (* string key *)
+      assert (G : forall m, match obj_get m k, is_hole n with
+                            | None, true => Val v
+                            | x, _ => do u0 <- update pf rest (match x with Some w => w | None => JNull end) n; Val (JObj (obj_set m k u0))
+                            end = Val u ->
+               exists u', u = JObj (obj_set m k u') /\ update pf rest (match obj_get m k with Some w => w | None => JNull end) n = Val u').
+      { intros m. rewrite NH. destruct (obj_get m k) as [j|].
+        - destruct (update pf rest j n) as [u0| |] eqn:EU; cbn [bind]; intros HH; try discriminate HH. inversion HH; subst; eauto.
+        - destruct (update pf rest JNull n) as [u0| |] eqn:EU; cbn [bind]; intros HH; try discriminate HH. inversion HH; subst; eauto. }
+      destruct v as [| |vn| | |m|]; try discriminate.
+      + destruct (G [] H) as (u' & -> & EU). cbn [getpath_loop f_index2]. rewrite obj_get_set_same. eapply IH; eauto.
+      + destruct (G m H) as (u' & -> & EU). cbn [getpath_loop f_index2]. rewrite obj_get_set_same. apply (IH (match obj_get m k with Some w => w | None => JNull end) n u'); auto. apply hole_free_get; auto.
   Qed.
 End TextDoc.
